@@ -133,8 +133,8 @@ Definition strip_sign (s : str) : bool * str :=
   | [] => (false, s)
   end.
 
-Definition atoi (s0 : str) : Z :=
-  let '(neg, s) := strip_sign (trim s0) in
+(* atoi after TrimSpace and the sign have been taken off *)
+Definition atoi_body (neg : bool) (s : str) : Z :=
   let fin (n : Z) := if neg then wrap64 (- n) else n in
   let dflt :=
     match cut_byte 35 s with
@@ -155,6 +155,9 @@ Definition atoi (s0 : str) : Z :=
       else dflt
   | [] => dflt
   end.
+
+Definition atoi (s0 : str) : Z :=
+  let '(neg, s) := strip_sign (trim s0) in atoi_body neg s.
 
 (* ---------------------------------------------------------------- Arithm *)
 Definition EDivZero : N := 1%N.
@@ -535,23 +538,24 @@ Section BashStep.
 End BashStep.
 
 (* d = remaining expression-recursion depth (bash: 1024) *)
+(* the value of variable [s]: its text evaluated as an expression by [rec] (None = depth exhausted) *)
+Definition bash_var (rec : option (expr -> env -> env * bval)) (s : str) (en' : env) : env * bval :=
+  match env_get en' s with
+  | [] => (en', BV 0)                       (* unset or null: 0 *)
+  | v =>
+      match rec with
+      | None => (en', BE ERecursion)
+      | Some f =>
+          match parse_text v with
+          | TTree (Some e') [] => f e' en'
+          | TTree None [] => (en', BV 0)
+          | _ => (en', BE ESyntax)
+          end
+      end
+  end.
+
 Fixpoint bash_arith (d : nat) (e : expr) (en : env) : env * bval :=
-  bash_step
-    (fun s en' =>
-       match env_get en' s with
-       | [] => (en', BV 0)                       (* unset or null: 0 *)
-       | v =>
-           match d with
-           | O => (en', BE ERecursion)
-           | S d' =>
-               match parse_text v with
-               | TTree (Some e') [] => bash_arith d' e' en'
-               | TTree None [] => (en', BV 0)
-               | _ => (en', BE ESyntax)
-               end
-           end
-       end)
-    e en.
+  bash_step (bash_var (match d with O => None | S d' => Some (bash_arith d') end)) e en.
 
 Definition bash_eval (e : expr) (en : env) : env * bval := bash_arith 1024 e en.
 
@@ -582,3 +586,53 @@ Fixpoint lits_ok (e : expr) : bool :=
   | Un _ _ x => lits_ok x
   | Bin _ x y => lits_ok x && lits_ok y
   end.
+
+(* ---------------------------------------------------------------- Spec: integer-literal texts, scope *)
+(* the declarative grammar of "a variable holds an integer literal":
+   blanks (space, tab), optional sign, a constant of [lit_value], blanks *)
+Definition blank (c : N) : bool := ((c =? 32) || (c =? 9))%N.
+
+Inductive sign := SNone | SPlus | SMinus.
+Definition sign_text (s : sign) : str :=
+  match s with SNone => [] | SPlus => [43%N] | SMinus => [45%N] end.
+Definition sign_val (s : sign) (n : Z) : Z := match s with SMinus => - n | _ => n end.
+
+Definition int_text (v : str) (sg : sign) (w : str) : Prop :=
+  exists ws1 ws2, v = ws1 ++ sign_text sg ++ w ++ ws2 /\ forallb blank ws1 = true /\ forallb blank ws2 = true.
+
+
+Definition lit_text (v : str) : Prop :=
+  v = [] \/ exists sg w n, int_text v sg w /\ lit_value w = Some n.
+
+
+Fixpoint drop_blanks (s : str) : str :=
+  match s with c :: r => if blank c then drop_blanks r else s | [] => [] end.
+Fixpoint span_word (s : str) : str * str :=
+  match s with
+  | c :: r => if blank c then ([], s) else let '(w, t) := span_word r in (c :: w, t)
+  | [] => ([], [])
+  end.
+
+(* recognises: blanks, optional sign, constant, blanks — or the empty string *)
+Definition int_text_b (v : str) : bool :=
+  match v with
+  | [] => true
+  | _ =>
+      let s1 := drop_blanks v in
+      let s2 := match s1 with c :: r => if ((c =? 43) || (c =? 45))%N then r else s1 | [] => s1 end in
+      let '(w, t) := span_word s2 in
+      forallb blank t && match lit_value w with Some _ => true | None => false end
+  end.
+
+
+Definition env_lits_b (en : env) : bool := forallb (fun kv => int_text_b (snd kv)) en.
+
+
+Definition is_BU (b : bval) : bool := match b with BU => true | _ => false end.
+
+(* scope: parser-producible tree, no a[i], valid constants (known class arith_invalid_literal_is_zero
+   excluded), variables hold integer literals (known class arith_var_holds_expression excluded),
+   and bash's evaluation is defined (no signed overflow, shift counts 0..63) *)
+Definition in_scope (e : expr) (en : env) : bool :=
+  wf e && no_index e && lits_ok e && env_lits_b en && negb (is_BU (snd (bash_eval e en))).
+
